@@ -139,22 +139,30 @@ def setInsert (a : Nat) : List Nat → List Nat
   | [] => [a]
   | b :: t => if a < b then a :: b :: t else if a = b then b :: t else b :: setInsert a t
 
+/-- ordered insertion before the first entry that is not smaller -/
+def insertLe (a : SliceInfo) : List SliceInfo → List SliceInfo
+  | [] => [a]
+  | b :: t => if SliceInfo.le a b then a :: b :: t else b :: insertLe a t
+
+/-- `sorted(infos)` (stable; here as insertion sort — every stable sort by a total preorder
+    returns the same list) -/
+def sortInfos (l : List SliceInfo) : List SliceInfo := l.foldr insertLe []
+
+/-- the `SliceInfo` created at core.py:1620-1625 -/
+def mkInfo (n : Net) (ind : Ix) : Option Nat → SliceInfo
+  | none => ⟨!n.output.contains ind, ind, n.size ind, none⟩
+  | some p => ⟨!n.output.contains ind, ind, 1, some p⟩
+
 /-- slicing-state effect of `remove_ind(ind, project)` (core.py:1606-1644); `none` is the
     `ValueError("already sliced")`. -/
 def removeInd (n : Net) (st : SliceState) (ind : Ix) (project : Option Nat) : Option SliceState :=
   if isSliced st.slicedInds ind then none
   else
-    let d := n.size ind
-    let inner := !n.output.contains ind
-    let si : SliceInfo := match project with
-      | none => ⟨inner, ind, d, none⟩
-      | some p => ⟨inner, ind, 1, some p⟩
-    let mult := match project with
-      | none => st.multiplicity * d
-      | some _ => st.multiplicity
     let holders := (List.range n.inputs.length).filter (fun i => (n.term i).contains ind)
-    some { slicedInds := (st.slicedInds ++ [si]).mergeSort SliceInfo.le,
-           multiplicity := mult,
+    some { slicedInds := sortInfos (st.slicedInds ++ [mkInfo n ind project]),
+           multiplicity := (match project with
+             | none => st.multiplicity * n.size ind
+             | some _ => st.multiplicity),
            slicedInputs := holders.foldl (fun acc i => setInsert i acc) st.slicedInputs }
 
 /-- slicing-state effect of `restore_ind(ind)` (core.py:1686-1718); `none` is the `KeyError`. -/
